@@ -37,6 +37,92 @@ fn c04q_unclosed_bracket_is_literal() {
     }
 }
 
+// ---- inner expressions `[.x.]` `[=x=]` `[:x:]` --------------------------------------------------
+// Reference (XBD 9.3.5 items 4-6): after `[` and the delimiter d, the expression extends to the FIRST
+// unquoted `d]`; the content is taken literally.  Returns (kind, content, characters consumed).
+fn ref_inner(s: &[PatternChar]) -> Option<(u8, [char; 4], usize, usize)> {
+    let d = match s.first() {
+        Some(Normal('.')) => '.',
+        Some(Normal('=')) => '=',
+        Some(Normal(':')) => ':',
+        _ => return None,
+    };
+    let t = &s[1..];
+    let mut k = 0;
+    while k + 1 < t.len() {
+        if t[k] == Normal(d) && t[k + 1] == Normal(']') {
+            let mut content = ['\0'; 4];
+            let mut n = 0;
+            while n < k {
+                content[n] = t[n].char_value();
+                n += 1;
+            }
+            let kind = if d == '.' { 0 } else if d == '=' { 1 } else { 2 };
+            return Some((kind, content, k, k + 3));
+        }
+        k += 1;
+    }
+    None
+}
+
+fn check_inner(s: &[PatternChar]) {
+    let expected = ref_inner(s);
+    match BracketAtom::parse_inner(s.iter().copied()) {
+        None => assert!(expected.is_none(), "parse_inner: None only without a closing delimiter"),
+        Some((atom, rest)) => {
+            let (kind, content, len, consumed) = match expected {
+                Some(e) => e,
+                None => {
+                    assert!(false, "parse_inner: no inner expression without a closing delimiter");
+                    return;
+                }
+            };
+            let (k, value) = match &atom {
+                BracketAtom::CollatingSymbol(v) => (0, v),
+                BracketAtom::EquivalenceClass(v) => (1, v),
+                BracketAtom::CharClass(v) => (2, v),
+                BracketAtom::Char(_) => {
+                    assert!(false, "parse_inner: never a plain character");
+                    return;
+                }
+            };
+            assert!(k == kind, "parse_inner: kind of the inner expression");
+            assert!(value.chars().count() == len, "parse_inner: the expression ends at the FIRST delimiter followed by ]");
+            let mut n = 0;
+            for c in value.chars() {
+                assert!(c == content[n], "parse_inner: the content is taken literally");
+                n += 1;
+            }
+            assert!(rest.count() == s.len() - consumed, "parse_inner: what follows the expression is left to the caller");
+            std::mem::forget(atom);
+        }
+    }
+}
+
+macro_rules! inner_case {
+    ($name:ident, $($pc:expr),*) => {
+        #[kani::proof]
+        #[kani::unwind(10)]
+        fn $name() {
+            check_inner(&[$($pc),*]);
+        }
+    };
+}
+inner_case!(c04q_inner_dots, Normal('.'), Normal('.'), Normal('.'), Normal(']'), Normal(']'));
+inner_case!(c04q_inner_equals, Normal('='), Normal('='), Normal('='), Normal(']'), Normal('a'));
+inner_case!(c04q_inner_delim_inside, Normal('.'), Normal('a'), Normal('.'), Normal('b'), Normal('.'), Normal(']'));
+inner_case!(c04q_inner_class, Normal(':'), Normal('a'), Normal(':'), Normal(']'), Normal(':'), Normal(']'));
+inner_case!(c04q_inner_bracket_first, Normal('.'), Normal(']'), Normal('.'), Normal(']'));
+inner_case!(c04q_inner_quoted_delim, Normal('.'), Literal('.'), Normal(']'), Normal('.'), Normal(']'));
+inner_case!(c04q_inner_quoted_close, Normal('='), Normal('='), Literal(']'), Normal('a'));
+inner_case!(c04q_inner_unclosed, Normal(':'), Normal('a'), Normal(':'));
+inner_case!(c04q_inner_empty, Normal('.'), Normal('.'), Normal(']'));
+inner_case!(c04q_inner_not_inner, Normal('a'), Normal('.'), Normal(']'));
+
+// (Symbolic contents -- every input of length 4-5 over {d, ], a, quoted d, quoted ]} -- were tried and did not finish
+// in 900 s; the inner expressions are therefore checked on the ten concrete inputs above, and for EVERY input by the
+// Verus unit fnparse.)
+
 // native replay of a Kani counterexample (bin/vcheck replay): the generated test is included here
 #[cfg(verif_playback)]
 include!("/verif/work/k/playback/fnmatch_parse_harness.rs");
